@@ -107,6 +107,15 @@ type xferWorld struct {
 	clientDoneAt time.Duration // first quiescent point at which the client was seen idle again
 	serverDoneAt time.Duration
 	sawClientBusy bool
+	lastMoved     int64
+	lastMoveAt    time.Duration
+	capHit        bool
+	paused        bool // a pause was requested at some point (keep-alive lines are legitimate)
+}
+
+// slowNotHung: the simulated-time cap was reached while bytes were still flowing.
+func (x *xferWorld) slowNotHung() bool {
+	return x.capHit && x.w.Now()-x.lastMoveAt < 5*time.Minute
 }
 
 func newXferWorld(rc *runCtx, o *xferOpts) *xferWorld {
@@ -386,7 +395,22 @@ func (x *xferWorld) nextTransfer(o *xferOpts) {
 
 // finished is the quiescent-point predicate of a plain transfer.
 func (x *xferWorld) finished() bool {
+	var moved int64
+	for _, l := range x.up {
+		moved += l.NSentTotal()
+	}
+	for _, l := range x.down {
+		moved += l.NSentTotal()
+	}
+	for _, c := range x.tunnelConns {
+		moved += c.Wr.NSentTotal() + c.R.NSentTotal()
+	}
+	if moved != x.lastMoved {
+		x.lastMoved = moved
+		x.lastMoveAt = x.w.Now()
+	}
 	if x.w.Now()-x.startAt > x.o.simCap {
+		x.capHit = true
 		return true
 	}
 	if !x.clientReady || x.filter == nil {
@@ -749,4 +773,32 @@ func vGenSources(rc *runCtx, root string, maxTop int, allowDirs bool, maxSize in
 		spec.classes = append(spec.classes, c)
 	}
 	return spec
+}
+
+// dumpWire appends the tail of every link's recorded stream to the result detail (debugging aid).
+func (x *xferWorld) dumpWire(rc *runCtx, n int) {
+	show := func(l *verifsim.Link) {
+		sent, deliv, _ := l.Snapshot()
+		a, b := sent, deliv
+		if len(a) > n {
+			a = a[len(a)-n:]
+		}
+		if len(b) > n {
+			b = b[len(b)-n:]
+		}
+		rc.res.Detail = append(rc.res.Detail, fmt.Sprintf("link %s sent(%d) tail=%q", l.Name, len(sent), a))
+		if !bytes.Equal(sent, deliv) {
+			rc.res.Detail = append(rc.res.Detail, fmt.Sprintf("link %s deliv(%d) tail=%q", l.Name, len(deliv), b))
+		}
+	}
+	for _, l := range x.up {
+		show(l)
+	}
+	for _, l := range x.down {
+		show(l)
+	}
+	for _, c := range x.tunnelConns {
+		show(c.Wr)
+		show(c.R)
+	}
 }
